@@ -508,6 +508,7 @@ func main() {
 	b.WriteString("def pendingCleanupConditional : Bool := " + leanBool(pendingCleanupConditional(need("channel", "processCommand"))) + "\n")
 	b.WriteString("def writeResumesAfterShortWrite : Bool := " + leanBool(writeResumesAfterShortWrite(need("ctxConn", "Write"))) + "\n")
 	b.WriteString("def readBudgetRearmed : Bool := " + leanBool(readBudgetRearmed(need("tcpTransport", "Receive"))) + "\n")
+	b.WriteString("def readBudgetRenewedPerValue : Bool := " + leanBool(readBudgetRenewedPerValue(need("tcpTransport", "Receive"))) + "\n")
 	rft := need("", "receiveFromTransport")
 	b.WriteString("def receiverClosesOnError : Bool := " + leanBool(receiverClosesOnError(rft)) + "\n")
 	b.WriteString("def receiverClosesOnOddSession : Bool := " + leanBool(receiverClosesOnOddSession(rft)) + "\n")
